@@ -22,11 +22,15 @@ type ConcSpec struct {
 	Secrets []string `json:"secrets"` // one thread per secret
 	Rounds  int      `json:"rounds"`
 	Bound   int      `json:"bound"`
+	// SamePlain: every tenant writes the SAME plaintext (with equal secrets the stored bytes must
+	// still differ: two writes of the same data give different stored bytes)
+	SamePlain bool `json:"same_plaintext,omitempty"`
 }
 
 type concObs struct {
-	notes []string
-	done  bool
+	notes  []string
+	stored map[string][]string // plaintext -> stored byte strings seen for it
+	done   bool
 }
 
 var concFocus = []string{"filesystem/filespace/encryptfs", "checks/c05"}
@@ -51,7 +55,7 @@ func findR(name string) rpath {
 
 func concBuild(sp ConcSpec, o *concObs) func() {
 	return func() {
-		*o = concObs{}
+		*o = concObs{stored: map[string][]string{}}
 		w, r := findW(sp.W), findR(sp.R)
 		var wg vsched.WaitGroup
 		type tenant struct {
@@ -72,10 +76,16 @@ func concBuild(sp ConcSpec, o *concObs) func() {
 				defer wg.Done()
 				for round := 0; round < sp.Rounds; round++ {
 					plain := fmt.Sprintf("tenant-%d private data, round %d: 0123456789abcdef", ti, round)
+					if sp.SamePlain {
+						plain = "the same data written by every tenant: 0123456789abcdef"
+					}
 					name := fmt.Sprintf("f%d.bin", round)
 					if res := write(fs, name, plain, w); res.Err != "" || res.Panic != "" {
 						o.notes = append(o.notes, fmt.Sprintf("write-failed|tenant %d (%s): %s%s", ti, w.Name, res.Err, res.Panic))
 						return
+					}
+					if raw, err := base.ReadFile(name); err == nil {
+						o.stored[plain] = append(o.stored[plain], string(raw))
 					}
 					res := read(fs, name, r)
 					if res.Panic != "" {
@@ -112,6 +122,16 @@ func concJudge(sp ConcSpec, o *concObs) func(x *explore.Exec) *explore.Verdict {
 		if !o.done {
 			return &explore.Verdict{Kind: "conc/not-finished", Clause: "no call blocks", Detail: "the harness did not finish"}
 		}
+		for plain, raws := range o.stored {
+			for i := range raws {
+				for j := i + 1; j < len(raws); j++ {
+					if raws[i] == raws[j] {
+						return &explore.Verdict{Kind: "conc/same-data-same-stored-bytes", Clause: "two writes of the same data give different stored bytes",
+							Detail: fmt.Sprintf("two concurrent writes of %q produced byte-identical stored files (%d bytes): nonce / key stream re-used", short(plain), len(raws[i]))}
+					}
+				}
+			}
+		}
 		if len(o.notes) > 0 {
 			parts := strings.SplitN(o.notes[0], "|", 2)
 			clause := "whatever is written through the encrypted filespace is read back identically by a filespace with the same secret; bytes produced with another secret are answered with an error"
@@ -137,12 +157,18 @@ func concPrograms(thorough bool) []ConcSpec {
 		ps = append(ps, ConcSpec{Cipher: ci, W: "WriteFile", R: "ReadFile", Secrets: []string{"alpha", "beta", "gamma"}, Rounds: 1, Bound: b - 1})
 		// the same secret from two goroutines (shared state must also be safe for equal keys)
 		ps = append(ps, ConcSpec{Cipher: ci, W: "Writer/3chunks", R: "Reader/buf7", Secrets: []string{"alpha", "alpha"}, Rounds: 1, Bound: b})
+		ps = append(ps, ConcSpec{Cipher: ci, W: "WriteFile", R: "ReadFile", Secrets: []string{"alpha", "alpha"}, Rounds: 2, Bound: b, SamePlain: true})
+		ps = append(ps, ConcSpec{Cipher: ci, W: "WriteFile", R: "ReadFile", Secrets: []string{"alpha", "alpha", "alpha"}, Rounds: 1, Bound: b - 1, SamePlain: true})
 	}
 	return ps
 }
 
 func (sp ConcSpec) name() string {
-	return fmt.Sprintf("conc/%s/%s/%s/%s/x%d", sp.Cipher, sp.W, sp.R, strings.Join(sp.Secrets, "+"), sp.Rounds)
+	n := fmt.Sprintf("conc/%s/%s/%s/%s/x%d", sp.Cipher, sp.W, sp.R, strings.Join(sp.Secrets, "+"), sp.Rounds)
+	if sp.SamePlain {
+		n += "/same-plaintext"
+	}
+	return n
 }
 
 func mkConc(sp ConcSpec) *explore.Program {
